@@ -9,7 +9,7 @@ arg = sys.argv[1]
 patch = arg if os.path.isfile(arg) else os.path.join(VERIF, "benign", arg, "patch.diff")
 d = tempfile.mkdtemp(prefix="shownorm-")
 try:
-    shutil.copytree("/repo/afkak", os.path.join(d, "afkak"), ignore=shutil.ignore_patterns("test", "__pycache__"))
+    shutil.copytree(os.environ.get("VERIF_SRC", "/repo") + "/afkak", os.path.join(d, "afkak"), ignore=shutil.ignore_patterns("test", "__pycache__"))
     subprocess.check_call(["patch", "-s", "-p1", "-d", d, "-i", patch])
     prog = Program(d)
     for m in prog.modules.values():
